@@ -970,3 +970,49 @@ Proof.
   destruct (rate =? 100)%Z; [|destruct ((matched >? 0) && (100 * dropped / matched <? rate))%Z];
     inversion H; subst; unfold hit; apply cnt_sum_add.
 Qed.
+
+(* ---------- addFields: any order of non-interfering fields ---------- *)
+
+(* two fields of one addFields do not interfere: different destinations, neither template reads the other's *)
+Definition fields_indep (p q : nat * list part) : Prop :=
+  p = q \/ (fst p <> fst q /\ tpl_reads (fst p) (snd q) = false /\ tpl_reads (fst q) (snd p) = false).
+
+Definition all_indep (ps : list (nat * list part)) : Prop :=
+  forall p q, In p ps -> In q ps -> fields_indep p q.
+
+Lemma all_indep_tail : forall p ps, all_indep (p :: ps) -> all_indep ps.
+Proof. intros p ps H a b Ha Hb. apply H; right; assumption. Qed.
+
+Lemma all_indep_perm : forall ps ps', Permutation ps ps' -> all_indep ps -> all_indep ps'.
+Proof.
+  intros ps ps' Hp H a b Ha Hb. apply H; eapply Permutation_in; try eassumption; apply Permutation_sym; assumption.
+Qed.
+
+(* the order of the fields of one addFields is irrelevant when they do not interfere *)
+Lemma addfields_perm_lemma : forall ps ps', Permutation ps ps' -> all_indep ps ->
+  forall r, run_addfields ps r = run_addfields ps' r.
+Proof.
+  intros ps ps' Hp. induction Hp as [|x l l' Hp IH|x y l|l l' l'' Hp1 IH1 Hp2 IH2]; intros Hind r.
+  - reflexivity.
+  - rewrite (addfields_seq_lemma x l), (addfields_seq_lemma x l').
+    destruct (run_addfields [x] r); try reflexivity. apply IH. eapply all_indep_tail. eassumption.
+  - destruct x as [d1 t1], y as [d2 t2].
+    destruct (Hind (d2, t2) (d1, t1) ltac:(left; reflexivity) ltac:(right; left; reflexivity)) as [Heq|(Hd & H1 & H2)].
+    + inversion Heq; subst. reflexivity.
+    + cbn [fst snd] in *. apply addfields_swap_lemma; assumption.
+  - rewrite IH1 by assumption. apply IH2. eapply all_indep_perm; eassumption.
+Qed.
+
+Lemma insert_pair_perm : forall p l, Permutation (insert_pair p l) (p :: l).
+Proof.
+  intros p. induction l as [|q l IH]; cbn [insert_pair]; [apply Permutation_refl|].
+  destruct (bytes_cmp (fst p) (fst q)); try apply Permutation_refl.
+  eapply Permutation_trans; [apply perm_skip; exact IH|apply perm_swap].
+Qed.
+
+(* the order in which the loader visits the fields is a permutation of the configured one *)
+Lemma sort_pairs_perm : forall l, Permutation (sort_pairs l) l.
+Proof.
+  induction l as [|p l IH]; [apply Permutation_refl|]. unfold sort_pairs in *. cbn [fold_right].
+  eapply Permutation_trans; [apply insert_pair_perm|apply perm_skip; exact IH].
+Qed.
